@@ -526,6 +526,20 @@ pub fn edit_during_request_probes() -> Vec<(String, Vec<(String, String)>)> {
                     problems.push((c.clone(), d.clone()));
                 }
             }
+            // the answer itself: an error (cancelled) or what a sequential session answers for the
+            // version the request was issued against - never a third thing such as `null`
+            if !out.problems.iter().any(|p| p.0 == "machinery" || p.0 == "server-died") {
+                match sequential(&sc) {
+                    Ok(seq) => {
+                        for (class, _, detail) in judge(&sc, &seq, &out) {
+                            if class == "mixed-version-answer" || class == "duplicate-response" {
+                                problems.push((class, detail));
+                            }
+                        }
+                    }
+                    Err(e) => problems.push(("machinery".into(), format!("sequential session for {method}: {e}"))),
+                }
+            }
             let id = 100;
             if !problems.iter().any(|p| p.0 == "server-died") && out.responses.get(&id).map_or(true, |r| r.len() != 1) {
                 problems.push(("request-not-answered-once".into(), format!("{method}: {} responses", out.responses.get(&id).map_or(0, |r| r.len()))));
